@@ -1404,6 +1404,11 @@ where
     #[inline(always)]
     fn skip_number_unsafe(&mut self) -> Result<()> {
         let _ = self.get_next_token([b']', b'}', b','], 0);
+        // the search stops at the separator, give the whitespace before it back: the span of the
+        // number ends at its last digit (the first byte of the number was consumed by the caller)
+        while self.read.index() > 0 && is_whitespace(self.read.at(self.read.index() - 1)) {
+            self.read.backward(1);
+        }
         Ok(())
     }
 
